@@ -346,7 +346,7 @@ def run_property(pid, tier='quick', seed=0, replay=None):
     undecided = None
     for un in P['units']:
         try:
-            ur = run_unit(un)
+            ur = run_unit(un, tag='main_' + pid)   # per-property file names: checks of different properties may run side by side
         except splice.ExtractError as e:
             undecided = 'extraction: %s' % e
             break
@@ -382,7 +382,7 @@ def run_property(pid, tier='quick', seed=0, replay=None):
             if cand:
                 ids = set(f.finding for f in cand)
                 try:
-                    ur2 = run_unit(ur.name, carve=ids, tag='carve')
+                    ur2 = run_unit(ur.name, carve=ids, tag='carve_' + pid)
                 except splice.ExtractError as e:
                     undecided = 'extraction (carve-out run): %s' % e
                     break
@@ -414,7 +414,7 @@ def run_property(pid, tier='quick', seed=0, replay=None):
         retried = []
         for un in sorted(set(ur.name for (ur, f) in viol)):
             try:
-                ur2 = run_unit(un, tag='retry', extra_flags=['--rlimit', '30', '--smt-option', 'smt.random_seed=%d' % (seed + 7)])
+                ur2 = run_unit(un, tag='retry_' + pid, extra_flags=['--rlimit', '30', '--smt-option', 'smt.random_seed=%d' % (seed + 7)])
             except splice.ExtractError:
                 ur2 = None
             if ur2 is None or ur2.res.status == 'undecided':
@@ -556,7 +556,7 @@ def main(argv):
             for un in PROPS[pid]['units']:
                 for sd in (seed + 1, seed + 2):
                     try:
-                        ur2 = run_unit(un, tag='seed%d' % sd, extra_flags=['--smt-option', 'smt.random_seed=%d' % sd])
+                        ur2 = run_unit(un, tag='seed%d_%s' % (sd, pid), extra_flags=['--smt-option', 'smt.random_seed=%d' % sd])
                         real2, _, _ = split_canaries(ur2)
                         bad = [f.oblig for f in real2 if pid in f.tags and not f.finding]
                         stab.append({'unit': un, 'seed': sd, 'status': ur2.res.status, 'smt_ms': ur2.res.smt_ms, 'failed_under_this_seed': bad})
